@@ -124,8 +124,12 @@ def run_generated(case):
     try:
         if rr.get("exc") or rr.get("exit") != 0:
             e = rr.get("exc") or {}
-            res["violations"].append({"mech": "shroud-fails-on-admitted-library:%s:%s:%s" % (e.get("type"), e.get("where"), engine.re.sub(r"\d+", "N", (e.get("msg") or "").split("\n")[-1])[:40]),
-                                      "detail": "%s: %s %s\noptions %r" % (lib["name"], e.get("type"), (e.get("msg") or "")[:800], lib["options"])})
+            if e:
+                res["violations"].append({"mech": "shroud-fails-on-admitted-library:%s:%s:%s" % (e.get("type"), e.get("where"), engine.re.sub(r"\d+", "N", (e.get("msg") or "").split("\n")[-1])[:40]),
+                                          "detail": "%s: %s %s\noptions %r" % (lib["name"], e.get("type"), (e.get("msg") or "")[:800], lib["options"])})
+            else:
+                _k, _t = engine.reject_mech(rr)
+                res["violations"].append({"mech": "shroud-fails-on-admitted-library:" + _k, "detail": "%s: %s\noptions %r" % (lib["name"], _t, lib["options"])})
             return res
         out = os.path.join(cwd, "out")
         res["subject_headers"] = [lib["name"] + (".hpp" if lib["language"] == "c++" else ".h")]
@@ -277,6 +281,13 @@ def main(rec):
                 k += 1
                 lib = libs.build("s%d" % k, lang, [(s_, T)], s_["wraps"], options={"F_CFI": cfi})
                 cases.append({"lib": lib, "row": {"single_shape": s_["id"], "T": T, "F_CFI": cfi, "wraps": list(s_["wraps"])}})
+    # ownership / memory-management declarations (owner, deref, free_pattern, class-typed results), each alone
+    from . import c06
+    own = c06.single_declaration_libraries()
+    if not thorough:
+        own = [x for i, x in enumerate(own) if i % 2 == common.seed() % 2]
+    for lib, row in own:
+        cases.append({"lib": lib, "row": row})
     res = pool.run_cases("vf.checks.c05", cases, func="run_generated", timeout=1800)
     for c, rr in zip(cases, res):
         if "stats" not in rr:
